@@ -1892,6 +1892,20 @@ def _global_rng(fr, *a, **kw):
     return O.fresh_int('global_rng')
 
 
+@lib('numpy.nan_to_num')
+def _nan_to_num(fr, x, *a, **kw):
+    # NaN / inf do not exist in the real-number model: identity (assumption listed in the evidence)
+    return x
+
+
+@lib('getitem:tensordict')
+def _tensordict_get(fr, d, key):
+    """a dict chrom -> array given by its one entry of interest: d[chrom]"""
+    if key is d.attrs['key'] or key == d.attrs['key']:
+        return d.attrs['value']
+    raise SymRaise('KeyError')
+
+
 @lib('time.time')
 def _time(fr):
     return O.fresh_real('time')
